@@ -9,6 +9,7 @@ package packetlimiter
 
 import (
 	"fmt"
+	"math"
 	"strings"
 	"testing"
 	"testing/synctest"
@@ -76,16 +77,23 @@ func counterOps(w int64, big int64) []op {
 }
 
 // runCounter replays a history on a fresh real counter and the list model.
+//
+// The reference lives on an unbounded time line (rel = nanoseconds since the first instant of the
+// history); the implementation is handed base+rel in int64 arithmetic, which for the "wrap"
+// scenario crosses math.MaxInt64 (the counter documents that it stays correct across clock
+// wraparound; all its comparisons must be differences, never absolute).
 func runCounter(w, base int64, h []op) bfs.Outcome {
 	c := newCounter(time.Duration(w))
 	var list []ev
+	var rel int64
 	now := base
 	for i, o := range h {
-		now += o.Dt
+		rel += o.Dt
+		now = base + rel // wraps for bases close to MaxInt64
 		for k := 0; k < o.N; k++ {
 			c.updateAndAdd(o.Size, now)
-			list = append(list, ev{now, o.Size})
-			closed, open := naive(list, now, w)
+			list = append(list, ev{rel, o.Size})
+			closed, open := naive(list, rel, w)
 			if got := c.sum(); got != closed && got != open {
 				return bfs.Outcome{FailKey: "counter.sum/differs-from-naive-window",
 					FailDesc: fmt.Sprintf("window %dns, base %d: after op %d (%v) event %d: sum()=%d, naive window count=%d (half-open %d); impl state %s", w, base, i, o, k+1, got, closed, open, counterKey(c, now))}
@@ -97,7 +105,7 @@ func runCounter(w, base int64, h []op) bfs.Outcome {
 			}
 		}
 	}
-	closed, _ := naive(list, now, w)
+	closed, _ := naive(list, rel, w)
 	return bfs.Outcome{Key: counterKey(c, now), Obs: fmt.Sprintf("sum=%d ring=%d", closed, len(c.times))}
 }
 
@@ -188,11 +196,14 @@ var limCfgs = []limCfg{
 type counterScen struct {
 	Name    string
 	W, Base int64
+	Quick   int // quick-tier depth
 }
 
 var counterScens = []counterScen{
-	{"counter-w1000ns-base0", 1000, 0},
-	{"counter-w7s-unixnano", int64(7 * time.Second), 1_758_000_000_000_000_000},
+	{"counter-w1000ns-base0", 1000, 0, 4},
+	{"counter-w7s-unixnano", int64(7 * time.Second), 1_758_000_000_000_000_000, 3},
+	// timestamps cross MaxInt64 -> MinInt64 within the first two or three operations
+	{"counter-w1000ns-wraparound", 1000, math.MaxInt64 - 1500, 3},
 }
 
 func depthOf(r *vrt.R, quick, thorough int) int {
@@ -225,12 +236,9 @@ func TestVerif(t *testing.T) {
 		}
 
 		// 1. counter, explicit now
-		for si, s := range counterScens { // quick: the second window shape one level shallower
+		for _, s := range counterScens { // quick: the second and third scenario one level shallower
 			s := s
-			if r.Thorough() {
-				si = 0
-			}
-			res := bfs.Explore(bfs.Config[op]{Name: s.Name, Ops: counterOps(s.W, 1_000_000), Depth: depthOf(r, 4-si, 5),
+			res := bfs.Explore(bfs.Config[op]{Name: s.Name, Ops: counterOps(s.W, 1_000_000), Depth: depthOf(r, s.Quick, 5),
 				Shard: r.Shard, NShards: r.NShards, Deadline: r.DeadlineTime(),
 				Run: func(h []op) bfs.Outcome { return runCounter(s.W, s.Base, h) }})
 			res.Merge(r, s.Name)
